@@ -133,8 +133,8 @@ theorem flags_predict_readonly (pre : Predef) (env : Env V) (n : Node J V) (hwf 
 theorem flags_predict_writable (pre : Predef) (env : Env V) (n : Node J V) (hwf : Node.WF pre n) (m a : String)
     (ad : AccDesc J) (h : findDesc (describe pre n) m a = some ad) (hro : ad.readonly = some false) (j : J) :
     ∃ mod p, lookupParam pre n m a = .ok (mod, p) ∧ p.readonly = false ∧ p.constant = none ∧
-      ∀ v w, p.dt.accept j (some p.entry.value) = .ok v → p.dt.revalidate v = .ok w →
-        ChecksOK env mod p.attr v p.checks →
+      ∀ v w, p.dt.accept j (some p.entry.value) = .ok v → (p.isLimitsPair = true → pairInverted env v = false) →
+        p.dt.revalidate v = .ok w → ChecksOK env mod p.attr v p.checks →
         handleChange pre env n (.full m a) j = finishWrite pre env n mod p v w := by
   have hk : ad.kind = .parameter := by
     rw [findDesc_eq pre n hwf.names m a] at h
@@ -163,8 +163,8 @@ theorem flags_predict_writable (pre : Predef) (env : Env V) (n : Node J V) (hwf 
       have := hwf.constRO mod hex.1 (.param p) hex.2.2.2.1 p rfl (by rw [hc]; rfl)
       rw [this] at hr; cases hr
   refine ⟨mod, p, hl, hr.symm, hc, ?_⟩
-  intro v w hacc hrev hchk
-  have hadm := (Frappy.Props.C04.admitChange_ok_iff env mod p j v w).2 ⟨hr.symm, hc, hacc, hrev, hchk⟩
+  intro v w hacc hord hrev hchk
+  have hadm := (Frappy.Props.C04.admitChange_ok_iff env mod p j v w).2 ⟨hr.symm, hc, hacc, hord, hrev, hchk⟩
   unfold handleChange
   simp only [target]; rw [hl]; simp only; rw [hadm]
 
@@ -173,7 +173,8 @@ theorem flags_predict_writable (pre : Predef) (env : Env V) (n : Node J V) (hwf 
 theorem flags_predict (pre : Predef) (n : Node J V) (hwf : Node.WF pre n) (m a : String)
     (ad : AccDesc J) (h : findDesc (describe pre n) m a = some ad) (hk : ad.kind = .parameter)
     (hsome : ∀ mod p, lookupParam pre n m a = .ok (mod, p) →
-      ∃ (env : Env V) (j : J) (v w : V), p.dt.accept j (some p.entry.value) = .ok v ∧ p.dt.revalidate v = .ok w ∧
+      ∃ (env : Env V) (j : J) (v w : V), p.dt.accept j (some p.entry.value) = .ok v ∧
+        (p.isLimitsPair = true → pairInverted env v = false) ∧ p.dt.revalidate v = .ok w ∧
         ChecksOK env mod p.attr v p.checks) :
     ad.readonly = some true ↔
       ∀ (env : Env V) (j : J), handleChange pre env n (.full m a) j = ⟨.error .readOnly, [], [], n⟩ := by
@@ -185,10 +186,10 @@ theorem flags_predict (pre : Predef) (n : Node J V) (hwf : Node.WF pre n) (m a :
     | true => rw [hr, hb]
     | false =>
       exfalso
-      obtain ⟨env, j, v, w, hacc, hrev, hchk⟩ := hsome mod p hl
+      obtain ⟨env, j, v, w, hacc, hord, hrev, hchk⟩ := hsome mod p hl
       obtain ⟨mod', p', hl', _, _, hfin⟩ := flags_predict_writable pre env n hwf m a ad h (by rw [hr, hb]) j
       rw [hl] at hl'; injection hl' with hl'; injection hl' with h1 h2; subst h1; subst h2
-      have heq := hfin v w hacc hrev hchk
+      have heq := hfin v w hacc hord hrev hchk
       rw [hall env j] at heq
       have hcalls := congrArg Outcome.calls heq
       have hreply := congrArg Outcome.reply heq
@@ -277,7 +278,7 @@ theorem undescribed_unreachable (pre : Predef) (env : Env V) (n : Node J V) (hwf
     · simp [handleRead, target, lookupParam, hf, findParam, hw, refuse, mkErr]
     · simp [handleDo, targetDo, lookupCommand, hf, findCommand, hw, refuse, mkErr]
     · cases he : mod.exported with
-      | true => exact ⟨.noSuchParameter, by simp [activateRefusal, hf, he, hw], Or.inr rfl⟩
+      | true => exact ⟨.noSuchParameter, by simp [activateRefusal, hf, he, findParam, hw], Or.inr rfl⟩
       | false => exact ⟨.noSuchModule, by simp [activateRefusal, hf, he], Or.inl rfl⟩
 
 /-- a module that is not in the report cannot be addressed at all -/
@@ -393,7 +394,7 @@ theorem change_emits_validated (pre : Predef) (env : Env V) (n : Node J V) (hwf 
     rw [hvd] at hv
     obtain ⟨mod, p, hmem, _, _, _, ⟨m', a', _, hlook⟩, hadm, heq⟩ := hv
     have hex := exported_of_lookupParam pre n m' a' mod p hlook
-    obtain ⟨_, _, hacc, hrev, _⟩ := (admitChange_ok_iff env mod p j v w0).1 hadm
+    obtain ⟨_, _, hacc, _, hrev, _⟩ := (admitChange_ok_iff env mod p j v w0).1 hadm
     rw [heq] at h
     unfold finishWrite at h
     split at h
